@@ -472,7 +472,7 @@ class TorchCalls(TorchOps):
 
     def make_dict(self, args, kwargs, node, ordered):
         if not args:
-            return DictV(items=tuple((Const(k), v) for k, v in kwargs.items()), ordered=ordered)
+            return DictV(items=tuple((Const(k), v) for k, v in kwargs.items()), ordered=ordered, born=self.interp.join_depth)
         src = args[0]
         if isinstance(src, DictV):
             return replace(src, ordered=ordered or src.ordered)
